@@ -61,6 +61,15 @@ def gen(tier):
     return out
 
 
+def gen_inplace(tier):
+    """choice blocks with a user block whose activation is written as a statement-form in-place call (`h.relu_()`): as winner and as loser"""
+    pre = {'op': 'conv', 'cout': 4}
+    out = [{'cin': 3, 'size': 6, 'stages': [pre, block(['inpl', 'c1'])], 'head': 'flatlin'},
+           {'cin': 3, 'size': 6, 'stages': [pre, block(['c3', 'inpl', 'id'])], 'head': 'gaplin'},
+           {'cin': 3, 'size': 6, 'stages': [pre, block(['seq', 'inpl'], twice=True)], 'head': 'flatlin'}]
+    return out
+
+
 def gen_fork(tier):
     """-> programs whose choice blocks contain branches with an INTERNAL FORK (a separate list: gen() is shared with other checks).
     Every fork kind meets every other branch kind in a two-branch block (so it is the only loser and the only winner), at both positions;
